@@ -18,17 +18,20 @@
    there are no files below it: phase (iii) of _commit removes the whole subtree.
 
    WHAT IS ASSUMED, beyond the side conditions of commit_leaves (no fault, fs_wf, A, E):
-     - [norec old]: the previous cache holds no record of a file or of a subbuild (first
-       build, or a cache that only lists created directories).  This is where XInv along
-       [run] is unconditional (ViewXRun.hit_norec / sbhit_norec).  For caches with records
-       XInv itself is only available relative to ViewXSetup.hit_statement /
-       ViewXRun.sbhit_statement; carrying YInv through a cache hit would need the same
-       analysis of the replay and is NOT done here.
+     - about the previous cache.  GENERAL FORM ([accept_dirs_exact_for],
+       [commit_leaves_exact_for]): a class [ok] of caches containing the old one, and, as
+       explicit HYPOTHESES, ViewXSetup.hit_statement_for ok / ViewXRun.sbhit_statement_for ok
+       (XInv across a cache lookup) and CommitDirs2Run.ytry_statement / ysb_statement (YInv
+       across a cache lookup).  None of the four is proved for arbitrary caches.
+       UNCONDITIONAL FORM ([accept_dirs_exact], [commit_leaves_exact], [build_then_clean_exact]):
+       [norec old], the previous cache holds no record of a file or of a subbuild (first
+       build, or a cache that only lists created directories); there the four statements are
+       theorems (hit_norec, sbhit_norec, ytry_norec, ysb_norec).
      - [old_ok old cf] (ViewInit.v): the old cache has distinct keys, does not list the
        root, and lists no directory that is or lies below an output or the cache file.
      - the root function starts with XInv: stated as the hypothesis
          forall w1 ccd, make_dirs (dirname cf) start = (w1, inl ccd) -> XInv [] w1
-       in [accept_dirs_exact]; [commit_leaves_exact] discharges it with
+       in [accept_dirs_exact..]; [commit_leaves_exact..] discharge it with
        ViewXC04.RInv_root_entry when the directory of the cache file is a visible
        directory of the pre-state with a creatable name (nothing has to be made for it).
    New file of round 3; edits nothing. *)
@@ -57,9 +60,17 @@ Hypothesis HypA : forall a t, Tgt old cf P t -> below a t = true -> ~ P a.
 Hypothesis HS : forall a t, Tgt old cf P t -> below a t = true -> notorig fs0 a.
 Hypothesis Hwf0 : fs_wf fs0.
 Hypothesis HE : forall d, In d (c_dirs old) -> path_ok d = true.
-Hypothesis Hnorec : norec old.
+(* the class of previous caches, and what is assumed of cache lookups for it
+   (ViewXSetup.hit_statement_for, ViewXRun.sbhit_statement_for: the lock-count invariant;
+   CommitDirs2Run.ytry_statement, ysb_statement: YInv) *)
+Variable ok : cache -> Prop.
+Hypothesis Hok : ok old.
+Hypothesis HH : hit_statement_for ok.
+Hypothesis HSb : sbhit_statement_for ok.
+Hypothesis HYt : forall X, ytry_statement fs0 old cf P X.
+Hypothesis HYs : forall X, ysb_statement fs0 old cf P X.
 
-Lemma accept_dirs_exact : forall nm svers pr w w' v,
+Lemma accept_dirs_exact_for : forall nm svers pr w w' v,
   fs0 = w_fs w -> w_faults w = [] -> AllTargets P pr ->
   (forall w1 ccd, make_dirs (dirname cf) (start_world w cf old nm svers) = (w1, inl ccd) -> XInv [] w1) ->
   m_accept cf nm svers (fun w0 => run pr None [] w0) w old = (w', Done (inl v)) ->
@@ -121,7 +132,7 @@ Proof.
   destruct res as [v0|e2]; [|destruct (roll_back ccd w2) as [wr [u|e']]; discriminate H].
   destruct (GRel_set_log fs0 old cf P ccd None (LInvoke "<root>" None PNone PNone :: w_log w1) w1 (conj Hr1 HD1) He1 (T0 _) (G0 _))
     as (F1' & _ & E1' & _). fold w1' in F1', E1'.
-  pose proof (run_Y fs0 old cf P ccd HypA HS Hwf0 Hnorec pr Hat None [] [] w1' w2 _ HR1 F1' E1' (T0 _) (G0 _)
+  pose proof (run_Y_for fs0 old cf P ccd HypA HS Hwf0 ok Hok HH HSb (HYt ccd) (HYs ccd) pr Hat None [] [] w1' w2 _ HR1 F1' E1' (T0 _) (G0 _)
                 (fun p Hp => ltac:(discriminate Hp)) HY1 E2) as HY2.
   destruct (run_G fs0 old cf P ccd HypA HS pr Hat None [] _ _ _ E2 F1' E1' (T0 _) (G0 _)) as (F2 & _ & He2 & _).
   destruct F2 as [Hr2 HD2].
@@ -204,6 +215,22 @@ Qed.
 
 End Accept2.
 
+(* previous caches without records: no hypothesis on cache lookups is left *)
+Lemma accept_dirs_exact : forall fs0 old cf (P : path -> Prop),
+  (forall a t, Tgt old cf P t -> below a t = true -> ~ P a) ->
+  (forall a t, Tgt old cf P t -> below a t = true -> notorig fs0 a) ->
+  fs_wf fs0 -> (forall d, In d (c_dirs old) -> path_ok d = true) -> norec old ->
+  forall nm svers pr w w' v,
+  fs0 = w_fs w -> w_faults w = [] -> AllTargets P pr ->
+  (forall w1 ccd, make_dirs (dirname cf) (start_world w cf old nm svers) = (w1, inl ccd) -> XInv [] w1) ->
+  m_accept cf nm svers (fun w0 => run pr None [] w0) w old = (w', Done (inl v)) ->
+  forall d, lookup (w_fs w') d = Some NDir -> lookup fs0 d = Some NDir \/ In d (c_dirs (w_new w')).
+Proof.
+  intros fs0 old cf P HypA HS Hwf0 HE Hnorec.
+  exact (accept_dirs_exact_for fs0 old cf P HypA HS Hwf0 HE norec Hnorec hit_norec sbhit_norec
+           (fun X => ytry_norec fs0 old cf P X Hnorec) (fun X => ysb_norec fs0 old cf P X Hnorec)).
+Qed.
+
 (* ================================================================== *)
 (* The theorems                                                        *)
 (* ================================================================== *)
@@ -247,6 +274,54 @@ Proof.
                 lookup (w_fs w) d = Some NDir \/ In d (c_dirs (w_new (end_build w1)))).
   { intros old0 -> Y.
     exact (accept_dirs_exact (w_fs w) old cf P HA2 HS Hwf HE Hnr nm svers root w w1 v eq_refl Hf Hat Hentry Y). }
+  rewrite m_build_unfold, Hsv in E. subst old. unfold old_cache_of in G |- *.
+  destruct (lookup (w_fs w) cf) as [[g|]|].
+  - destruct (cache_of_json (f_json g)) as [old0| |]; try discriminate E.
+    destruct (String.eqb (c_name old0) nm); [|discriminate E]. exact (G old0 eq_refl E).
+  - discriminate E.
+  - exact (G _ eq_refl E).
+Qed.
+
+(* the same for a class [ok] of previous caches, RELATIVE TO the analysis of cache lookups:
+   ViewXSetup.hit_statement_for ok and ViewXRun.sbhit_statement_for ok (XInv across a lookup),
+   CommitDirs2Run.ytry_statement and ysb_statement (YInv across a lookup).  For ok := norec all
+   four are theorems (commit_leaves_exact above); for arbitrary caches they are NOT proved. *)
+Theorem commit_leaves_exact_for : forall (ok : cache -> Prop) cf nm vers svers root w w' v (P : path -> Prop),
+  w_faults w = [] ->
+  sanitize vers = Some svers ->
+  AllTargets P root ->
+  fs_wf (w_fs w) ->
+  (forall a t, (P t \/ t = cf \/ In t (cache_targets (old_cache_of (w_fs w) cf nm svers))) ->
+     below a t = true -> (forall f, lookup (w_fs w) a <> Some (NFile f)) /\ ~ P a) ->
+  (forall d, In d (c_dirs (old_cache_of (w_fs w) cf nm svers)) -> path_ok d = true) ->
+  ok (old_cache_of (w_fs w) cf nm svers) ->
+  hit_statement_for ok -> sbhit_statement_for ok ->
+  (forall X, ytry_statement (w_fs w) (old_cache_of (w_fs w) cf nm svers) cf P X) ->
+  (forall X, ysb_statement (w_fs w) (old_cache_of (w_fs w) cf nm svers) cf P X) ->
+  old_ok (old_cache_of (w_fs w) cf nm svers) cf ->
+  path_ok (dirname cf) = true ->
+  vdir (start_world w cf (old_cache_of (w_fs w) cf nm svers) nm svers) (dirname cf) = true ->
+  run_build cf nm vers root w = (w', Done (inl v)) ->
+  forall d, lookup (w_fs w') d = Some NDir ->
+    lookup (w_fs w) d = Some NDir \/ In d (c_dirs (w_new w')).
+Proof.
+  intros ok cf nm vers svers root w w' v P Hf Hsv Hat Hwf HA HE Hokc HH HSb HYt HYs Hok Hpo Hvd H.
+  set (old := old_cache_of (w_fs w) cf nm svers) in *.
+  unfold run_build in H.
+  destruct (m_build cf nm vers (fun w0 => run root None [] w0) w) as [w1 r1] eqn:E.
+  inversion H; subst w' r1; clear H.
+  assert (HA2 : forall a t, Tgt old cf P t -> below a t = true -> ~ P a) by (intros a t Ht Hb; exact (proj2 (HA a t Ht Hb))).
+  assert (HS : forall a t, Tgt old cf P t -> below a t = true -> notorig (w_fs w) a) by (intros a t Ht Hb; exact (proj1 (HA a t Ht Hb))).
+  assert (Hentry : forall wx ccd, make_dirs (dirname cf) (start_world w cf old nm svers) = (wx, inl ccd) -> XInv [] wx).
+  { intros wx ccd Ex.
+    destruct (RInv_root_entry w cf old nm svers Hwf Hok Hf Hpo Hvd) as (wy & Ey & (HXy & _)).
+    assert (wx = wy) by congruence. subst wy.
+    eapply XInv_fields; [exact HXy|..]; reflexivity. }
+  assert (G : forall old0, old0 = old -> m_accept cf nm svers (fun w0 => run root None [] w0) w old0 = (w1, Done (inl v)) ->
+              forall d, lookup (w_fs (end_build w1)) d = Some NDir ->
+                lookup (w_fs w) d = Some NDir \/ In d (c_dirs (w_new (end_build w1)))).
+  { intros old0 -> Y.
+    exact (accept_dirs_exact_for (w_fs w) old cf P HA2 HS Hwf HE ok Hokc HH HSb HYt HYs nm svers root w w1 v eq_refl Hf Hat Hentry Y). }
   rewrite m_build_unfold, Hsv in E. subst old. unfold old_cache_of in G |- *.
   destruct (lookup (w_fs w) cf) as [[g|]|].
   - destruct (cache_of_json (f_json g)) as [old0| |]; try discriminate E.
@@ -342,7 +417,9 @@ Proof.
   - exact (commit_leaves_exact cf nm vers svers root w w' v P Hf Hsv Hat Hwf HA HE Hnr Hok Hpo Hvd H).
 Qed.
 
+Print Assumptions accept_dirs_exact_for.
 Print Assumptions accept_dirs_exact.
+Print Assumptions commit_leaves_exact_for.
 Print Assumptions commit_leaves_exact.
 Print Assumptions failed_parents_removed.
 Print Assumptions made_dirs_recorded.
